@@ -2289,3 +2289,24 @@ M("C15-variable-evaluated-without-in-progress-guard", "C15", F_EX,
   expect="R15.30|evaluate|variable-initializer#0|")
 M("C15-variable-never-leaves-the-in-progress-set", "C15", F_EX,
   "        in_progress.erase(_u._variable);\n", "", expect="R15.30|evaluate|variable-initializer#0|")
+
+# ---- R10.12 (S10-C10: `= 0` honoured only on a declaration that says `virtual`)
+M("C10-pure-specifier-needs-virtual-keyword", "C10", F_IN,
+  "        _storage_class |= SC_pure_virtual;\n", "        if (_storage_class & SC_virtual) {\n          _storage_class |= SC_pure_virtual;\n        }\n",
+  expect="R10.12|set_initializer|SC_pure_virtual|")
+M("C10-default-specifier-recorded-as-deleted-kind", "C10", F_IN,
+  "      } else if (initializer->_type == CPPExpression::T_default) {\n        _storage_class |= SC_defaulted;", "      } else if (initializer->_type == CPPExpression::T_delete) {\n        _storage_class |= SC_defaulted;",
+  expect="R10.12|set_initializer|SC_defaulted|")
+
+# ---- R09.13 (S10-C09: the trim loop of __has_include tests the wrong character)
+M("C09-has-include-trim-tests-the-closing-paren", "C09", F_PP,
+  "  while (t > r && isspace(expr[t - 1])) {", "  while (t > r && isspace(expr[t])) {",
+  expect="R09.13|CPPPreprocessor::expand_has_include_function|trim(t)|")
+M("C09-trim-blanks-tests-one-before", "C09", F_PP,
+  "  while (last > first && isspace(str[last])) {", "  while (last > first && isspace(str[last - 1])) {",
+  expect="R09.13|trim_blanks|trim(last)|")
+
+# ---- R17.10 (S10-C17: a named file reached through -S is no longer the user's own)
+M("C17-named-file-from-system-directory-not-own", "C17", F_PP,
+  "    if (_explicit_files.count(filename)) {\n      source = CPPFile::S_local;", "    if (source != CPPFile::S_system && _explicit_files.count(filename)) {\n      source = CPPFile::S_local;",
+  expect="R17.10|handle_include_directive|")
